@@ -153,14 +153,9 @@ def unescGo (isAttr : Bool) : Option Str → Str → Option Str
   | none, c :: cs =>
       if c = '&' then unescGo isAttr (some []) cs
       else if c = '<' || !isXmlChar c then none
-      else match unescGo isAttr none cs with
-        | some r => some (normLiteral isAttr c :: r)
-        | none => none
+      else (unescGo isAttr none cs).map (normLiteral isAttr c :: ·)
   | some acc, c :: cs =>
-      if c = ';' then
-        match decodeEntity acc, unescGo isAttr none cs with
-        | some ch, some r => some (ch :: r)
-        | _, _ => none
+      if c = ';' then (decodeEntity acc).bind (fun ch => (unescGo isAttr none cs).map (ch :: ·))
       else unescGo isAttr (some (acc ++ [c])) cs
 
 def unescape (isAttr : Bool) (s : Str) : Option Str := unescGo isAttr none s
@@ -248,7 +243,6 @@ def parseXML (s : Str) : Option Node :=
 
 /-! ### skeleton of a layout hierarchy: the element tree the property demands -/
 
-def s (x : String) : Str := x.toList
 def nl : Node := .text ['\n']
 
 mutual
